@@ -315,7 +315,7 @@ theorem wfUFields_utf8 : ∀ (cols : ArrUFields) (fs : UFields) (k : Int) (pos j
 end
 
 /-- field form -/
-theorem WF_utf8 (f : Field) (a : Arr) (i : Nat) (lv : LVal) (h : WF f a = true) (hd : decodeAt a i = .ok lv) :
+theorem WF_utf8 (f : Field) (a : Arr) (i : Nat) (lv : LVal) (h : WFS f a = true) (hd : decodeAt a i = .ok lv) :
     utf8Ok lv = true := wf_utf8 a _ _ i lv h hd
 
 end SaModel.Lemmas.C03
